@@ -17,7 +17,10 @@ CONSTANTS B,          \* internal buffer size (frames)
           Targets,    \* clock times (units) for scheduled sounds / own-time speed changes
           Delays,     \* delays (frames) of delayed speed changes
           MaxCmd, MaxCb, MaxRd, MaxSched,
-          OwnTime     \* TRUE: allow speed changes scheduled on the clock's own time (known finding D11)
+          OwnTime,    \* TRUE: allow speed changes scheduled on the clock's own time (known finding D11)
+          Racy,       \* TRUE: on_start_processing reads its three command slots in separate steps (yield point cmd.r)
+                      \*       and a stop() may fall between them
+          ResetFirst  \* TRUE: the reset slot is read before the ticking slot (the code after fix D24); FALSE: before the fix
 
 VARIABLES cst, qt, ticking, speed,
           pSpeed, pTick, pReset, ownPend,   \* command slots; speed tweens waiting for the clock's own time
@@ -46,7 +49,7 @@ Unch(vs) == UNCHANGED vs
 
 \* ---------------------------------------------------------------- gameplay
 CmdSimple(c, v) ==
-  /\ ncmd < MaxCmd /\ spc = "idle" /\ apc = "idle" /\ rpc = "idle" /\ ncmd' = ncmd + 1    \* (commands racing with their read: C07)
+  /\ ncmd < MaxCmd /\ spc = "idle" /\ mon.fuzzy = 0 /\ apc = "idle" /\ rpc = "idle" /\ ncmd' = ncmd + 1    \* (commands racing with their read: C07)
   /\ act' = <<"Cmd", c, v, 0>>
   /\ ev' = [a |-> "cmd", c |-> c, v |-> v, w |-> 0]
   /\ CASE c = "start" -> pTick' = "on" /\ UNCHANGED <<pSpeed, pReset, ownPend, pDelay>>
@@ -74,7 +77,7 @@ CmdSpeedAt(v, w) ==
 StopA ==
   \* (a stop overlapping a callback or a read - two writers of the two words - is not explored: the handle is
   \*  used by one gameplay thread here, so both halves of the stop run without interruption)
-  /\ ncmd < MaxCmd /\ spc = "idle" /\ apc = "idle" /\ rpc = "idle" /\ ncmd' = ncmd + 1
+  /\ ~Racy /\ ncmd < MaxCmd /\ spc = "idle" /\ apc = "idle" /\ rpc = "idle" /\ ncmd' = ncmd + 1
   /\ pTick' = "off" /\ pReset' = TRUE /\ shT' = 0 /\ shF' = 0 /\ spc' = "idle"
   /\ act' = <<"StopA">> /\ ev' = [a |-> "cmd", c |-> "stop", v |-> 0, w |-> 0]
   /\ UNCHANGED <<cst, qt, ticking, speed, pSpeed, ownPend, pDelay, tw, shTicking, apc, acbN, rpc, rT, sched, firedNow, cb, nrd>>
@@ -83,6 +86,22 @@ StopB ==
   /\ spc = "mid" /\ shF' = 0 /\ spc' = "idle"
   /\ act' = <<"StopB">> /\ ev' = [a |-> "tau"]
   /\ UNCHANGED <<cst, qt, ticking, speed, pSpeed, pTick, pReset, ownPend, pDelay, tw, shT, shTicking, apc, acbN, rpc, rT, sched, firedNow, ncmd, cb, nrd>>
+
+\* Racy: ClockHandle::stop as the two command writes it is (yield point cmd.w before each), anywhere relative to the
+\* audio thread's reads.  StopBegin: the call has begun (nothing written); StopW1: set_ticking(false) written;
+\* StopW2: reset written, both words of the published time stored as 0, the call returns
+StopBegin ==
+  /\ Racy /\ ncmd < MaxCmd /\ spc = "idle" /\ rpc = "idle" /\ mon.fuzzy = 0 /\ ~mon.lost /\ ncmd' = ncmd + 1 /\ spc' = "w0"
+  /\ act' = <<"StopBegin">> /\ ev' = [a |-> "cmd", c |-> "stop_begin", v |-> 0, w |-> 0]
+  /\ UNCHANGED <<cst, qt, ticking, speed, pSpeed, pTick, pReset, ownPend, pDelay, tw, shT, shF, shTicking, apc, acbN, rpc, rT, sched, firedNow, cb, nrd>>
+StopW1 ==
+  /\ spc = "w0" /\ spc' = "w1" /\ pTick' = "off"
+  /\ act' = <<"StopW1">> /\ ev' = [a |-> "tau"]
+  /\ UNCHANGED <<cst, qt, ticking, speed, pSpeed, pReset, ownPend, pDelay, tw, shT, shF, shTicking, apc, acbN, rpc, rT, sched, firedNow, ncmd, cb, nrd>>
+StopW2 ==
+  /\ spc = "w1" /\ spc' = "idle" /\ pReset' = TRUE /\ shT' = 0 /\ shF' = 0
+  /\ act' = <<"StopW2">> /\ ev' = [a |-> "cmd", c |-> "stop_end", v |-> 0, w |-> 0]
+  /\ UNCHANGED <<cst, qt, ticking, speed, pSpeed, pTick, ownPend, pDelay, tw, shTicking, apc, acbN, rpc, rT, sched, firedNow, ncmd, cb, nrd>>
 
 Sched(id, w) ==
   /\ Len(sched) < MaxSched /\ id = Len(sched) + 1 /\ apc = "idle" /\ rpc = "idle"
@@ -102,20 +121,49 @@ RdB ==
 
 \* ---------------------------------------------------------------- audio
 \* on_start_processing: read commands; a reset stores the ticks word at once
-ABegin(n) ==
-  /\ apc = "idle" /\ spc = "idle" /\ cb < MaxCb /\ acbN' = n
-  /\ act' = <<"ABegin", n>> /\ ev' = [a |-> "tau"]
+RdSpeedSlot ==
   \* Parameter::set: an immediate zero-length tween is done at the first update (speed' = target); a delayed one counts down
   /\ speed' = IF pSpeed # -1 /\ pDelay = 0 THEN pSpeed ELSE speed
   /\ tw' = IF pSpeed = -1 THEN tw ELSE IF pDelay = 0 THEN <<>> ELSE <<[v |-> pSpeed, rem |-> pDelay]>>
-  /\ pDelay' = 0
+  /\ pDelay' = 0 /\ pSpeed' = -1
+RdTickSlot ==
   /\ ticking' = IF pTick = "on" THEN TRUE ELSE IF pTick = "off" THEN FALSE ELSE ticking
-  /\ shTicking' = ticking'
-  /\ pSpeed' = -1 /\ pTick' = "none" /\ pReset' = FALSE
+  /\ shTicking' = ticking' /\ pTick' = "none"
+\* (next: where the audio thread parks after the last slot has been read)
+RdResetSlot(next) ==
+  /\ pReset' = FALSE
   \* without a reset the next yield point is clk.pub.mid, i.e. after the ticks word has been published
-  /\ IF pReset THEN cst' = "NotStarted" /\ qt' = 0 /\ shT' = 0 /\ apc' = "reset_mid"
-     ELSE UNCHANGED <<cst, qt>> /\ shT' = qt \div 4 /\ apc' = "pub_mid"
+  /\ IF pReset THEN cst' = "NotStarted" /\ qt' = 0 /\ shT' = 0 /\ apc' = (IF next = "end" THEN "reset_mid" ELSE next)
+     ELSE UNCHANGED <<cst, qt>> /\ (IF next = "end" THEN shT' = qt \div 4 /\ apc' = "pub_mid" ELSE UNCHANGED shT /\ apc' = next)
+
+ABegin(n) ==
+  /\ ~Racy /\ apc = "idle" /\ spc = "idle" /\ cb < MaxCb /\ acbN' = n
+  /\ act' = <<"ABegin", n>> /\ ev' = [a |-> "tau"]
+  /\ RdSpeedSlot /\ RdTickSlot /\ RdResetSlot("end")
   /\ UNCHANGED <<ownPend, shF, rpc, rT, spc, sched, firedNow, ncmd, cb, nrd>>
+
+\* the same in four steps (Racy): the callback begins; the speed slot; the first and the second of {ticking, reset}
+ABeginR(n) ==
+  /\ Racy /\ apc = "idle" /\ cb < MaxCb /\ acbN' = n /\ apc' = "rd_speed"
+  /\ act' = <<"ABeginR", n>> /\ ev' = [a |-> "cbstart"]
+  /\ UNCHANGED <<cst, qt, ticking, speed, pSpeed, pTick, pReset, ownPend, pDelay, tw, shT, shF, shTicking, rpc, rT, spc, sched, firedNow, ncmd, cb, nrd>>
+ARdSpeed ==
+  /\ apc = "rd_speed" /\ apc' = "rd_a" /\ RdSpeedSlot
+  /\ act' = <<"ARdSpeed">> /\ ev' = [a |-> "tau"]
+  /\ UNCHANGED <<cst, qt, ticking, pTick, pReset, ownPend, shT, shF, shTicking, acbN, rpc, rT, spc, sched, firedNow, ncmd, cb, nrd>>
+ARdA ==
+  /\ apc = "rd_a"
+  /\ act' = <<"ARdA">> /\ ev' = [a |-> "tau"]
+  /\ IF ResetFirst THEN RdResetSlot("rd_b") /\ UNCHANGED <<ticking, shTicking, pTick>>
+     ELSE RdTickSlot /\ apc' = "rd_b" /\ UNCHANGED <<cst, qt, shT, pReset>>
+  /\ UNCHANGED <<speed, pSpeed, ownPend, pDelay, tw, shF, acbN, rpc, rT, spc, sched, firedNow, ncmd, cb, nrd>>
+\* (after a reset in step A the ticks word is already 0; the ticks word proper is published by update_shared)
+ARdB ==
+  /\ apc = "rd_b"
+  /\ act' = <<"ARdB">> /\ ev' = [a |-> "tau"]
+  /\ IF ResetFirst THEN RdTickSlot /\ shT' = qt \div 4 /\ apc' = "pub_mid" /\ UNCHANGED <<cst, qt, pReset>>
+     ELSE RdResetSlot("end") /\ UNCHANGED <<ticking, shTicking, pTick>>
+  /\ UNCHANGED <<speed, pSpeed, ownPend, pDelay, tw, shF, acbN, rpc, rT, spc, sched, firedNow, ncmd, cb, nrd>>
 
 \* update_shared: the ticks word (then clk.pub.mid)
 APubTicks ==
@@ -148,8 +196,8 @@ APubFracAndRun ==
   /\ shF' = qt % 4
   /\ LET r == Run(Chunks(acbN, B), 0, qt, cst, sched, <<>>, speed, tw) IN
      /\ qt' = r[1] /\ cst' = r[2] /\ sched' = r[3] /\ firedNow' = r[4] /\ speed' = r[5] /\ tw' = r[6]
-     /\ ev' = [a |-> "cb", n |-> acbN, t |-> IF rpc = "mid" THEN -1 ELSE shT * 4 + (qt % 4),
-                    ticking |-> IF rpc = "mid" THEN -1 ELSE IF shTicking THEN 1 ELSE 0, fired |-> r[4], panicked |-> FALSE]
+     /\ ev' = [a |-> "cb", n |-> acbN, t |-> IF rpc = "mid" \/ spc # "idle" THEN -1 ELSE shT * 4 + (qt % 4),
+                    ticking |-> IF rpc = "mid" \/ spc # "idle" THEN -1 ELSE IF shTicking THEN 1 ELSE 0, fired |-> r[4], panicked |-> FALSE]
   /\ act' = <<"ARun">>
   /\ UNCHANGED <<ticking, pSpeed, pTick, pReset, ownPend, pDelay, shT, shTicking, acbN, rpc, rT, spc, ncmd, nrd>>
 
@@ -158,8 +206,11 @@ INext == \/ \E c \in {"start", "pause"} : CmdSimple(c, 0)
          \/ \E v \in Speeds, w \in Targets : CmdSpeedAt(v, w)
          \/ \E v \in Speeds, d \in Delays : CmdSpeedIn(v, d)
          \/ StopA \/ StopB \/ RdA \/ RdB
+         \/ StopBegin \/ StopW1 \/ StopW2
          \/ \E w \in Targets : Sched(Len(sched) + 1, w)
          \/ \E n \in Ns : ABegin(n)
+         \/ \E n \in Ns : ABeginR(n)
+         \/ ARdSpeed \/ ARdA \/ ARdB
          \/ APubTicks \/ APubFracAndRun
 
 Monitor ==
@@ -178,7 +229,8 @@ KnownD10 == bad \in {"read_shows_a_value_the_clock_had", "read_never_goes_backwa
 KnownD11 == bad = "own_time_speed_change_takes_effect_when_due"
 PropertyHolds == bad = "" \/ KnownD10 \/ KnownD11
 PropertyHoldsSequential == bad = "" \/ KnownD11      \* (used when readers/stoppers never overlap a callback)
-InternalTimeExact == (apc = "idle" /\ ~mon.ownUsed /\ ~mon.pendReset /\ bad = "") => qt = mon.ref
+InternalTimeExact == (apc = "idle" /\ spc = "idle" /\ ~mon.stopOpen /\ ~mon.ownUsed /\ ~mon.pendReset /\ mon.fuzzy = 0 /\ ~mon.lost /\ bad = "") => qt = mon.ref
+W_RacyStop == ~(mon.fuzzy > 0)
 W_Torn == ~KnownD10
 W_Own == ~KnownD11
 \* (witness: a delayed speed change whose delay ran out while the clock was not ticking)
